@@ -60,5 +60,55 @@ def which_scenario(chk, prop):
     def to_bool(ex_, res):
         res = ex_.materialize(res)
         return ex_.models.discr(ex_, res) == bv(serial)
+    def confirm(chk_, o):
+        """native replay through the real runner: the scenario with the counterexample's tags next to two plain ones"""
+        import os
+        import re
+        from checks import replay
+        m = o.model
+        hit = set(m['tags_equal_to_literal'])
+
+        def tags(lvl, n):
+            names = ['serial' if ('%s.tag%d' % (lvl, i)) in hit else 'other%d' % i for i in range(n)]
+            return ' '.join('@' + t for t in names)
+        L = ['builder max_concurrent=3', 'feature']
+        if m['feature_tags']:
+            L.append('| ' + tags('feature', m['feature_tags']))
+        L.append('| Feature: f0')
+        ind = '  '
+        if m['rule']:
+            if m['rule_tags']:
+                L.append('|   ' + tags('rule', m['rule_tags']))
+            L.append('|   Rule: r0')
+            ind = '    '
+        if m['scenario_tags']:
+            L.append('| %s%s' % (ind, tags('scenario', m['scenario_tags'])))
+        L += ['| %sScenario: x' % ind, '| %s  Given stx' % ind, 'feature', '| Feature: f1', '|   Scenario: p', '|     Given stp', '|   Scenario: q', '|     Given stq',
+              'step stx yields=8', 'step stp yields=8', 'step stq yields=8']
+        d = os.path.join(common.EVID, 'replay')
+        os.makedirs(d, exist_ok=True)
+        path = os.path.join(d, '%s-default-which-scenario.script' % prop)
+        res, out = replay.run_script('\n'.join(['mode runner'] + L) + '\n', path, timeout=60)
+        chk_.replays += 1
+        evs = [ln[7:].rsplit(' t=', 1)[0] for ln in out.splitlines() if ln.startswith('LOG EV ')]
+        xs = [i for i, e in enumerate(evs) if ':scenario[x]:started' in e]
+        xf = [i for i, e in enumerate(evs) if ':scenario[x]:finished' in e]
+        if res is None or not xs or not xf:
+            o.verdict = 'inconclusive'
+            o.detail += ' | native replay failed: %s' % out[-200:]
+            return
+        others = [e for e in evs[xs[0]:xf[0]] if re.search(r':scenario\[[pq]\]:', e)]
+        # p and q running when x starts (started before, not finished)
+        running = [n for n in 'pq' if any(':scenario[%s]:started' % n in e for e in evs[:xs[0]]) and not any(':scenario[%s]:finished' % n in e for e in evs[:xs[0]])]
+        overlapped = bool(others or running)
+        should_be_serial = bool(hit)
+        if overlapped == should_be_serial:
+            chk_.replay_files.append(path)
+            o.replay = path
+            o.detail += ' | reproduced natively through the real runner: the scenario %s other scenarios although an inherited tag %s @serial' % (
+                'overlaps' if overlapped else 'runs isolated from', 'is' if should_be_serial else 'is not')
+        else:
+            o.verdict = 'inconclusive'
+            o.detail += ' | not reproduced natively (the real runner schedules the scenario as specified)'
     return tagsets.tag_predicate_obligation(chk, body, '%s.default-which_scenario' % prop, 'serial', negate=False,
-                                            arg_order=('feature', 'rule', 'scenario'), closure_self=True, to_bool=to_bool)
+                                            arg_order=('feature', 'rule', 'scenario'), closure_self=True, to_bool=to_bool, confirm=confirm)
